@@ -42,6 +42,7 @@ def cases(tier: str, seed: int) -> list[dict]:
               dict(base, a="PolyCollection", var="single", mode="name"),
               dict(base, a="PolyCollection", var="bigend", mode="array"),
               dict(base, a="PolyCollection", var="pv", mode="anon"),
+              dict(base, a="PolyCollection", var="plotv", mode="relabelled"),
               dict(base, a="PolyCollection", var="temp", mode="name", refuse="dims"),
               dict(base, a="PolyCollection", var="eta", mode="array", refuse="dims"),
               dict(base, a="PolyCollection", var="plotv", mode="name", array=[1, 2, 3], refuse="both"),
